@@ -92,6 +92,7 @@ type Exec struct {
 	undefLocals map[string]Term
 	privAllocs map[*ssa.Alloc]bool
 	privRefs   []string
+	invClock   string
 }
 
 func (vc *VC) newExec(fn *ssa.Function, pfx string, depth int) *Exec {
@@ -165,11 +166,20 @@ func (e *Exec) typeInv(t Term, h *Heap) string {
 		if h == nil {
 			return app(">=", t.S, "0")
 		}
-		return and(app(">=", t.S, "0"), app("<", t.S, h.get("clock")))
+		return and(app(">=", t.S, "0"), app("<", t.S, e.clockFor(h)))
 	case *types.Interface, *types.Signature:
 		return e.refInv(t.S, h)
 	}
 	return "true"
+}
+
+// clockFor: the clock bound used in type invariants (the birth clock of the heap variable a value
+// was loaded from, when known; the current clock otherwise).
+func (e *Exec) clockFor(h *Heap) string {
+	if e.invClock != "" {
+		return e.invClock
+	}
+	return h.get("clock")
 }
 
 func (e *Exec) sliceInv(s string, h *Heap) string {
@@ -178,7 +188,7 @@ func (e *Exec) sliceInv(s string, h *Heap) string {
 		implies(eq(base, "0"), and(eq(app("s_len", s), "0"), eq(app("s_cap", s), "0"), eq(app("s_off", s), "0"))))
 	if h != nil {
 		e.u().clockVar()
-		inv = and(inv, app("<", base, h.get("clock")))
+		inv = and(inv, app("<", base, e.clockFor(h)))
 	}
 	return inv
 }
@@ -188,7 +198,7 @@ func (e *Exec) refInv(s string, h *Heap) string {
 		return "true"
 	}
 	e.u().clockVar()
-	inv := app("<", app("root", s), h.get("clock"))
+	inv := app("<", app("root", s), e.clockFor(h))
 	// objects allocated by this function whose address never escapes cannot be what a callee
 	// returns or what is loaded from the heap
 	for _, pr := range e.privRefs {
@@ -943,7 +953,9 @@ func (e *Exec) instr(b *ssa.BasicBlock, ins ssa.Instruction, reach string, h *He
 			r, h2 := e.allocRef(h, x.Name()+"_arr")
 			so := u.sortOf(ut.Elem())
 			ev := u.elemVar(so)
-			h2 = h2.set(ev, app("store", h2.get(ev), r, fmt.Sprintf("((as const (Array Int %s)) %s)", so, u.zero(ut.Elem()))))
+			eOld := h2.get(ev)
+			h2 = h2.set(ev, app("store", eOld, r, fmt.Sprintf("((as const (Array Int %s)) %s)", so, u.zero(ut.Elem()))))
+			e.freshRowLemma(so, eOld, h2.get(ev), r)
 			n := fmt.Sprint(ut.Len())
 			e.vals[x] = mk(fmt.Sprintf("(mk_slice %s 0 %s %s)", r, n, n), SSlice, x.Type())
 			return h2
@@ -1123,7 +1135,9 @@ func (e *Exec) instr(b *ssa.BasicBlock, ins ssa.Instruction, reach string, h *He
 		ev := u.elemVar(so)
 		ln, cp := e.val(x.Len).S, e.val(x.Cap).S
 		vc.oblig("makeslice", x.Name(), reach, and(app("<=", "0", ln), app("<=", ln, cp)), "makeslice: len out of range", posOf(x))
-		h2 = h2.set(ev, app("store", h2.get(ev), r, fmt.Sprintf("((as const (Array Int %s)) %s)", so, u.zero(st.Elem()))))
+		eOld := h2.get(ev)
+		h2 = h2.set(ev, app("store", eOld, r, fmt.Sprintf("((as const (Array Int %s)) %s)", so, u.zero(st.Elem()))))
+		e.freshRowLemma(so, eOld, h2.get(ev), r)
 		e.vals[x] = e.name(mk(fmt.Sprintf("(mk_slice %s 0 %s %s)", r, ln, cp), SSlice, x.Type()), x.Name())
 		return h2
 
@@ -1293,9 +1307,11 @@ func (e *Exec) unop(x *ssa.UnOp, reach string, h *Heap) *Heap {
 		if a, ok := e.addrs[x.X]; ok {
 			t := mk(e.loadAddr(a, h), u.sortOf(x.Type()), x.Type())
 			t = e.name(t, x.Name())
+			e.invClock = h.birthOf(e.addrVar(a))
 			if inv := e.typeInv(t, h); inv != "true" {
 				vc.assume(inv)
 			}
+			e.invClock = ""
 			e.vals[x] = t
 			return h
 		}
@@ -1564,4 +1580,25 @@ func (e *Exec) sliceOp(x *ssa.Slice, reach string, h *Heap) Term {
 	_ = isPtrArr
 	e.vc.oblig("slice", exprName(x.X), reach, and(app("<=", "0", lo), app("<=", lo, hi), app("<=", hi, mx), app("<=", mx, app("s_cap", v.S))), "slice bounds out of range", posOf(x))
 	return mk(fmt.Sprintf("(mk_slice %s (+ %s %s) (- %s %s) (- %s %s))", app("s_base", v.S), app("s_off", v.S), lo, hi, lo, mx, lo), SSlice, x.Type())
+}
+
+// freshRowLemma: allocating a new backing row leaves every slice over another row unchanged
+// (accessor-level frame, see Heap.havoc).
+func (e *Exec) freshRowLemma(so Sort, eOld, eNew, base string) {
+	if e.noName || eOld == eNew {
+		return
+	}
+	at := "at_" + sortTag(so)
+	e.vc.assume(fmt.Sprintf("(forall ((o Slice) (k Int)) (! (=> (not (= (s_base o) %s)) (= (%s %s o k) (%s %s o k))) :pattern ((%s %s o k))))", base, at, eNew, at, eOld, at, eNew))
+}
+
+// addrVar: the heap variable an engine-level address reads.
+func (e *Exec) addrVar(a *Addr) string {
+	switch a.Kind {
+	case 0:
+		return e.u().fieldVar(a.SI, a.FI)
+	case 1:
+		return e.u().elemVar(e.u().sortOf(a.Elem))
+	}
+	return e.u().cellVar(e.u().sortOf(a.Elem))
 }
